@@ -615,6 +615,11 @@ func (E *Engine) encodeLemmas(p string) (enc *FnEnc, err error) {
 			hasTable = true
 		}
 	}
+	for _, gr := range E.CS.GlobalsRO {
+		if hasProp(gr.Props, p) {
+			hasTable = true
+		}
+	}
 	if len(ls) == 0 && !hasTable {
 		return nil, nil
 	}
@@ -643,6 +648,9 @@ func (E *Engine) encodeLemmas(p string) (enc *FnEnc, err error) {
 	}
 	E.tableObligations(p, enc)
 	E.stableObligations(p, enc)
+	E.slotObligations(p, enc)
+	E.confinementObligations(p, enc)
+	E.globalsObligations(p, enc)
 	return enc, nil
 }
 
